@@ -28,6 +28,8 @@ CONFIG = {'assumptions': [
     'reverse order (must give the same entries and chains)',
     'ELFFile keeps no state between section instantiations in the model (the code has none); the combined stream '
     'pins that by instantiating several version sections from one ELFFile in both orders',
+    'histories on one section object (repeated / alternating get_version) leave the stateless answers unchanged: '
+    'the model has no memo for them, as the code has none',
     'the implementation runs under the default recursion limit (1000) of a stock interpreter',
     'an entry "carries" an index when its vd_ndx / vna_other field EQUALS it (hidden bit included, no masking)']}
 LEVEL = {'text': 'Machine-checked theorems, for ALL images and header tables satisfying a boolean layout predicate '
@@ -71,7 +73,11 @@ RULE = ('cases: version-definition / version-requirement sections with 0..14 ent
         '(+ symbol table), each linked to its own string table (independent tables, same-layout twins with different '
         'strings at the same offsets, or partly shared), the three sections instantiated from ONE ELFFile object '
         '(get_section / iter_sections / get_section_by_name) in a random order and, on a second ELFFile, in the '
-        'reverse order, all instantiated before any is observed, each compared with its own spec; plus a malformed stream (zero counts, counts running into garbage, zero links on '
+        'reverse order, all instantiated before any is observed, each compared with its own spec, ONE such file per run with 0xff00 or more section headers (extended numbering: '
+        'e_shnum = 0, count in sh_size of header 0; its header table, last in the file, is certified through '
+        'C15_section_wf_any_tail); on every in-domain chain case get_version is asked again for every index on the same '
+        'section object (reverse order) and twice per index with the two auxiliary iterators advanced alternately; '
+        'plus a malformed stream (zero counts, counts running into garbage, zero links on '
         'non-last entries / auxiliaries counted several times, followed displacements of 2**32 - k, truncated files, '
         'wrong link types, zero entry size) compared impl vs model only. distinct = hash(kind, abstract); non-trivial = '
         'at least 2 records walked or a malformed / ended case')
@@ -554,6 +560,13 @@ def gen(ctx):
     for kind in ('verdef', 'verneed'):
         cases.append((kind + '_long', _gen_long_case(rng, kind, K + rng.randint(0, 40), rng.randint(3, 12))))
         cases.append((kind + '_long', _gen_long_case(rng, kind, 1, K + rng.randint(0, 40))))
+    # extended section numbering: ONE forced file with 0xff00 or more section headers (e_shnum = 0, the count in
+    # sh_size of header 0) carrying the three version sections; every sh_link must still be followed
+    c = _gen_combo_case(rng, big)
+    c[8] = 'get_section'
+    c[6] = [c[6][0], [r for r in c[6][1] if r != 'SHDRS'] + ['SHDRS'], c[6][2]]     # the 2.6 / 4 MB table last
+    c.append(0xff00 - len(COMBO_ROLES) - 1 + rng.choice([0, 0, 1, 37]))
+    cases.append(('combo', c))
     for _ in range(ctx.scale(110, 1500)):
         c = _gen_combo_case(rng, big)
         cases.append(('combo', c))
@@ -596,10 +609,13 @@ SHSTR_NAMES = {'shstr': b'.shstrtab', 'strtab': b'.dynstr', 'symtab': b'.dynsym'
 
 class _Image:
     """file plan -> section offsets; the header bytes come from the driver in a second round"""
-    def __init__(self, le, is64, machine, plan, secs, cut=0, osabi=0):
+    def __init__(self, le, is64, machine, plan, secs, cut=0, osabi=0, extra_null=0):
         # secs: role -> dict(type, data, link_role, info, entsize, name)
         self.le, self.is64, self.machine, self.osabi = le, is64, machine, osabi
         sec_order, file_order, gaps = plan
+        # extra_null: that many further SHT_NULL headers (all zero bytes) behind the real ones; with 0xff00 or more
+        # headers in all the file uses extended numbering: e_shnum = 0, the count is sh_size of header 0
+        self.extra_null = extra_null
         self.roles = ['null'] + list(sec_order)
         self.index = {r: i for i, r in enumerate(self.roles)}
         self.secs = secs
@@ -619,7 +635,7 @@ class _Image:
             body += g
             if r == 'SHDRS':
                 self.shoff = ehsize + len(body)
-                body += b'\0' * (self.shentsize * len(self.roles))
+                body += b'\0' * (self.shentsize * (len(self.roles) + extra_null))
             else:
                 self.offset[r] = ehsize + len(body)
                 body += secs[r]['data']
@@ -636,16 +652,20 @@ class _Image:
         le, is64 = self.le, self.is64
         reqs = [['enc', le, is64, 'Ehdr',
                  [b'\x7fELF', 2 if is64 else 1, 1 if le else 2, 1, self.osabi, 0, b'\0' * 7, 3, self.machine, 1, 0, 0, self.shoff, 0,
-                  self.ehsize, 0, 0, self.shentsize, len(self.roles), self.index['shstr']]]]
+                  self.ehsize, 0, 0, self.shentsize, self.total() if self.total() < 0xff00 else 0, self.index['shstr']]]]
         for r in self.roles:
             if r == 'null':
-                reqs.append(['enc', le, is64, 'Shdr', [0] * 10])
+                reqs.append(['enc', le, is64, 'Shdr', [0, 0, 0, 0, 0, self.total() if self.total() >= 0xff00 else 0,
+                                                       0, 0, 0, 0]])
             else:
                 s = self.secs[r]
                 reqs.append(['enc', le, is64, 'Shdr',
                              [self.name_off[r], s['type'], s.get('flags', 2), 0, self.offset[r],
                               s.get('size', len(s['data'])), self.link_of(r), s.get('info', 0), 1, s.get('entsize', 0)]])
         return reqs
+
+    def total(self):
+        return len(self.roles) + self.extra_null
 
     def link_of(self, r):
         lr = self.secs[r].get('link_role')
@@ -660,7 +680,9 @@ class _Image:
                 s = self.secs[r]
                 out.append([s['type'], self.offset[r], s.get('size', len(s['data'])), s.get('entsize', 0),
                             self.link_of(r), s.get('info', 0)])
-        return out
+        if self.total() >= 0xff00:
+            out[0] = [0, 0, self.total(), 0, 0, 0]
+        return out + [[0, 0, 0, 0, 0, 0]] * self.extra_null
 
     def finish(self, header_encs):
         ok = all(e[0] == 1 for e in header_encs)
@@ -702,6 +724,7 @@ def _nm(s):
     return 'none' if s is None else s.encode('utf-8')
 
 
+HIST_NAMES = ['iter_versions_deferred', 'get_version_again', 'get_version_two_live_answers']
 STREAMS = [None]     # the Streams() of the running evaluate() call (temporary files removed when it ends)
 
 
@@ -736,7 +759,8 @@ def _impl_chain(kind, img, n, idxs, elf=None, sec=None, sk='bytesio'):
     if sec is None:
         sec = impl_call(open_sec)
     if isinstance(sec, list):
-        return [sec, sec, [sec for _ in idxs]] + ([sec] if kind == 'verneed' else []), sec
+        return ([sec, sec, [sec for _ in idxs]] + ([sec] if kind == 'verneed' else []),
+                [sec, [sec for _ in idxs], [sec for _ in idxs]])
 
     def walk_deferred():
         # all (entry, auxiliary iterator) pairs are collected FIRST, the iterators are consumed afterwards
@@ -765,6 +789,30 @@ def _impl_chain(kind, img, n, idxs, elf=None, sec=None, sk='bytesio'):
         v, a = r
         return ['ok', ['some', [_rec(v.entry), _nm(v.name), [_rec(a.entry), _nm(a.name)]]]]
     res = [impl_call(walk), impl_call(lambda: ['ok', sec.num_versions()]), [impl_call(getv, i) for i in idxs]]
+
+    def getv_pair(i):
+        # two live answers for ONE index on the same section object, their auxiliary iterators advanced alternately:
+        # each caller must see the whole chain (an answer is not a shared one-shot iterator)
+        r1, r2 = sec.get_version(i), sec.get_version(i)
+        if r1 is None or r2 is None:
+            return ['ok', 'none'] if r1 is None and r2 is None else ['ok', ['mismatch', repr(r1), repr(r2)]]
+        if kind != 'verdef':
+            o = [['ok', ['some', [_rec(v.entry), _nm(v.name), [_rec(a.entry), _nm(a.name)]]]] for v, a in (r1, r2)]
+            return o[0] if o[0] == o[1] else ['ok', ['mismatch', o[0], o[1]]]
+        its, got, live = [iter(r1[1]), iter(r2[1])], [[], []], [True, True]
+        while live[0] or live[1]:
+            for k in (0, 1):
+                if live[k]:
+                    try:
+                        a = next(its[k])
+                        got[k].append([_rec(a.entry), _nm(a.name)])
+                    except StopIteration:
+                        live[k] = False
+        o = [['ok', ['some', [_rec(r[0].entry), 'none', got[k]]]] for k, r in enumerate((r1, r2))]
+        return o[0] if o[0] == o[1] else ['ok', ['mismatch', o[0], o[1]]]
+    # the same questions again on the same object, last index first (every answer consumed the first time round)
+    again = [impl_call(getv, i) for i in reversed(idxs)][::-1]
+    paired = [impl_call(getv_pair, i) for i in idxs]
     if kind == 'verneed':
         sec2 = impl_call(open_sec)   # a fresh object: get_version/iter_versions above do not touch the memo, but keep it clean
         if isinstance(sec2, list):
@@ -773,7 +821,7 @@ def _impl_chain(kind, img, n, idxs, elf=None, sec=None, sk='bytesio'):
             r1 = impl_call(lambda: ['ok', int(sec2.has_indexes())])
             r2 = impl_call(lambda: ['ok', int(sec2.has_indexes())])
             res.append(['ok', [r1, r2]])
-    return res, impl_call(walk_deferred)
+    return res, [impl_call(walk_deferred), again, paired]
 
 
 def _versym_opener(img, n, elf=None, sk='bytesio'):
@@ -951,8 +999,8 @@ def _evaluate_files(ctx, cases):
             spec = [ans[2], ans[4], ans[6]] + ([ans[8]] if base == 'verneed' else [])
             impl, deferred = _impl_chain(base, data, n, idxs, sk=sk)
             if wf:
-                names, impl = names + ['iter_versions_deferred'], impl + [deferred]
-                model, spec = model + [model[0]], spec + [spec[0]]
+                names, impl = names + HIST_NAMES, impl + deferred
+                model, spec = model + [model[0], model[2], model[2]], spec + [spec[0], spec[2], spec[2]]
         ctx.bump('corpus_file_sections', kind + (':certified' if wf else ':not-certified'))
         comp = _first_diff(names, sx.canon(impl), sx.canon(spec if wf else model))
         ctx.record(kind, a, impl=impl, spec=spec if wf else model, model=model, in_domain=wf,
@@ -1109,8 +1157,8 @@ def _evaluate(ctx, cases):
             spec = [spec[0]] + model[1:]
         if in_domain and base in ('verdef', 'verneed'):
             # in-domain only (on malformed chains the two consumption orders legitimately meet different errors first)
-            names, impl = names + ['iter_versions_deferred'], impl + [deferred]
-            model, spec = model + [model[0]], spec + [spec[0]]
+            names, impl = names + HIST_NAMES, impl + deferred
+            model, spec = model + [model[0], model[2], model[2]], spec + [spec[0], spec[2], spec[2]]
         ctx.bump('class/order', ('64' if c[1] else '32') + ('LE' if c[0] else 'BE'))
         ctx.bump('in_domain', kind + ':' + str(in_domain))
         ctx.bump('stream_kind', sk)
@@ -1158,7 +1206,7 @@ def _impl_combo(img, index, order, how, d_idxs, n_idxs, deferred, sk='bytesio'):
         else:
             obs, dfr = _impl_chain('verdef' if r == 'vdef' else 'verneed', img, index[r],
                                    d_idxs if r == 'vdef' else n_idxs, elf, secs[r])
-            out[r] = obs + ([dfr] if deferred else [])
+            out[r] = obs + (dfr if deferred else [])
     return out
 
 
@@ -1219,7 +1267,8 @@ def _evaluate_combo(ctx, cases):
                 'strd': dict(type=stype('strd'), data=c[3][2], name=COMBO_NAMES['strd']),
                 'strn': dict(type=stype('strn'), data=c[4][2], name=COMBO_NAMES['strn']),
                 'strs': dict(type=stype('strs'), data=s_strtab, name=COMBO_NAMES['strs'])}
-        im = _Image(le, is64, machine, c[6], secs, osabi=c[11] if len(c) > 11 else 0)
+        im = _Image(le, is64, machine, c[6], secs, osabi=c[11] if len(c) > 11 else 0,
+                    extra_null=c[13] if len(c) > 13 else 0)
         hr = im.header_reqs()
         hspans.append((len(hreqs), len(hreqs) + len(hr)))
         hreqs += hr
@@ -1229,9 +1278,15 @@ def _evaluate_combo(ctx, cases):
     for (kind, c), (im, fits), (st, en) in zip(cases, images, hspans):
         img, hok = im.finish(hencs[st:en])
         shdrs = im.shdr_abstract()
-        creqs.append(['verdef', c[0], c[1], img, shdrs, im.index['vdef'], c[3][0], c[3][3]])
-        creqs.append(['verneed', c[0], c[1], img, shdrs, im.index['vneed'], c[4][0], c[4][3]])
-        creqs.append(['versym', c[0], c[1], img, shdrs, im.index['versym'], c[5][0]])
+        dimg = img
+        if im.extra_null and c[6][1][-1] == 'SHDRS':
+            # the megabytes of (decoded separately) section headers at the end of the file are not sent to the
+            # driver: the layout predicates are monotone in the image (C15_section_wf_any_tail: wf on a prefix gives wf
+            # on prefix ++ tail), so certifying the prefix certifies the file the implementation reads
+            dimg = img[:im.shoff]
+        creqs.append(['verdef', c[0], c[1], dimg, shdrs, im.index['vdef'], c[3][0], c[3][3]])
+        creqs.append(['verneed', c[0], c[1], dimg, shdrs, im.index['vneed'], c[4][0], c[4][3]])
+        creqs.append(['versym', c[0], c[1], dimg, shdrs, im.index['versym'], c[5][0]])
         built.append((img, im.index, fits and hok))
     answers = drv.batch(creqs)
     obs_names = {'vdef': ['iter_versions', 'num_versions', 'get_version'],
@@ -1246,15 +1301,15 @@ def _evaluate_combo(ctx, cases):
         spec = {'vdef': [ad[2], ad[4], ad[6]], 'vneed': [an[2], an[4], an[6], an[8]], 'versym': [av[2], av[4]]}
         if in_domain:
             for r in ('vdef', 'vneed'):
-                model[r] = model[r] + [model[r][0]]
-                spec[r] = spec[r] + [spec[r][0]]
+                model[r] = model[r] + [model[r][0], model[r][2], model[r][2]]
+                spec[r] = spec[r] + [spec[r][0], spec[r][2], spec[r][2]]
         order, how = list(c[7]), c[8]
         names, impl_f, model_f, spec_f = [], [], [], []
         # the same file, a fresh ELFFile per run: the three sections instantiated in [order], then in reverse order
         for tag, o in (('', order), ('reversed:', order[::-1])):
             got = _impl_combo(img, index, o, how, c[3][3], c[4][3], in_domain, sk)
             for r in ('vdef', 'vneed', 'versym'):
-                nm = obs_names[r] + (['iter_versions_deferred'] if in_domain and r != 'versym' else [])
+                nm = obs_names[r] + (HIST_NAMES if in_domain and r != 'versym' else [])
                 names += ['%s%s.%s' % (tag, r, x) for x in nm]
                 impl_f += got[r] if not (got[r] and got[r][0] == 'err') else [got[r]] * len(nm)
                 model_f += model[r]
@@ -1266,6 +1321,7 @@ def _evaluate_combo(ctx, cases):
         ctx.bump('stream_kind', sk)
         ctx.bump('EI_OSABI', img[7])
         ctx.bump('combo_tables', c[9])
+        ctx.bump('combo_section_headers', 'extended (>= 0xff00)' if len(c) > 13 and c[13] else 'ordinary')
         ctx.bump('combo_instantiation', how + ':' + '>'.join(order))
         if not malformed and not in_domain:
             ctx.bump('generator_left_domain', kind)
